@@ -233,12 +233,21 @@ func deepPairs(c *genCtx, sw *shardWriter, j *jb) {
 	}
 	deep := []bufStep{mk("[", "]", "", 10000), mk("[", "]", "", 10001), mk("[", "]", "1", 10050), mk("[", "", "", 10005),
 		mk(`{"a":`, "}", "1", 10001), mk(`[{"a":`, "}]", "1", 5030), mk("[", "]", "", 9999)}
+	// first steps also leave short stacks of many lengths behind (growth policies start from what they find), second
+	// steps also go deep without reaching the limit (a growth ladder that starts from a foreign length may overshoot it)
+	firsts := append([]bufStep{}, deep...)
+	for _, n := range []int{1, 2, 3, 5, 64, 625, 1000, 5000, 6000} {
+		firsts = append(firsts, mk("[", "]", "1", n))
+	}
+	firsts = append(firsts, mk(`{"a":`, "}", "1", 2), mk(`[{"a":`, "}]", "1", 3))
+	seconds := append([]bufStep{}, deep...)
+	seconds = append(seconds, mk("[", "]", "", 8200), mk(`{"a":`, "}", "1", 6200), mk(`[{"a":`, "}]", "1", 4600), mk("[", "]", "7", 5001))
 	type fm struct{ fn, mode int }
 	fms := []fm{{1, 0}, {2, 0}, {3, 0}, {4, hmZero}, {5, hmZero}, {4, hmSkipSame}, {5, hmFastSame}}
 	n := 0
-	for _, d1 := range deep {
+	for _, d1 := range firsts {
 		for _, f1 := range fms {
-			for _, d2 := range deep {
+			for _, d2 := range seconds {
 				for _, f2 := range fms {
 					n++
 					if !c.thorough() && (n+int(c.seed))%2 != 0 {
@@ -261,7 +270,7 @@ func genBufHist(c *genCtx, sw *shardWriter, j *jb) {
 	docs := histDocs(c)
 	nh := 1500
 	if c.thorough() {
-		nh = 40000
+		nh = 150000
 	}
 	for hI := 0; hI < nh; hI++ {
 		setCurrent(fmt.Sprintf("bufhist %d", hI))
